@@ -2,6 +2,8 @@
 C04 — writes through any handle never clobber changes made via other handles.
 -/
 import SC.Lemmas.Seq
+import SC.Lemmas.Refine
+import SC.Lemmas.Natural
 import SC.Table
 import SC.Generated.Tables
 namespace SC.Props
@@ -44,5 +46,92 @@ theorem C04_load_is_merge (s : State) (oi : Nat) (o : Obj) (d : J)
   simp only [ho, hd]
   have hlt : oi < s.objs.length := (List.getElem?_eq_some_iff.mp ho).1
   simp [State.setObj, hlt]
+
+/-- C04 (with C01 and C02) as ONE refinement step.  Object `oi` is bound to a resource whose current
+content is `d` — written by whoever: this object, another object, an outside writer.  `oi`'s own
+memory is ARBITRARY.  For every operation that loads first (all but root-level clear/reset) and
+passes its pre-validation: the call returns what the operation's body returns on a tree `t` that
+has exactly the content of `d`, and a mutator leaves the backend holding exactly the body's result
+on `t`.  Result and new backend content are functions of the backend's current content and the
+operation alone — whatever this handle knew before: nothing another handle wrote is clobbered. -/
+theorem C04_call_runs_on_backend_content (s : State) (oi : Nat) (o : Obj) (d : J) (op : Op)
+    (ho : s.objs[oi]? = some o) (hst : s.store o.res = some d)
+    (hv : Valid (s.fam o) d) (hwd : d.wf = true) (hwt : o.root.wf = true) (hk : sameKind o.root d = true)
+    (hno : op.isOverwrite = false) (hns : op.skipsLoad = false)
+    (hpre : preValidate (s.fam o) o.root.isDict op = none) :
+    let t := (updNode (s.fam o) o.root d s.next).val
+    let r := runBody (s.fam o) t op (loadRoot s oi).1.next
+    Eqv t d ∧ t.wf = true ∧
+    (call s (.root oi) op).2 = (match r.err with | some e => .error e | none => .ok r.out) ∧
+    (op.isRead = false → (call s (.root oi) op).1.store o.res = some r.node.toBase) ∧
+    (op.isRead = true → (call s (.root oi) op).1.stores = s.stores) :=
+  call_root_refines s oi o d op ho hst hv hwd hwt hk hno hns hpre
+
+/-- the instance the property names: `obj[k] = v` through a stale object keeps every other key the
+backend currently has — each with the content it has there (`Eqv`: same structure, scalars, key
+sets) — and sets `k` to `v` -/
+theorem C04_setitem_keeps_other_keys (s : State) (oi : Nat) (o : Obj) (i : Nat) (kvs0 : List (Key × T))
+    (dkvs : List (Key × J)) (k : Key) (v : J)
+    (ho : s.objs[oi]? = some o) (hroot : o.root = .dict i kvs0) (hst : s.store o.res = some (.dict () dkvs))
+    (hv : Valid (s.fam o) (Tr.dict () dkvs : J)) (hwd : Tr.wfKV dkvs = true) (hwt : o.root.wf = true)
+    (hpre : validateKV (s.fam o).dictV [(k, v)] = none) :
+    ∃ kvs' : List (Key × J), (call s (.root oi) (.dSetitem k v)).1.store o.res = some (.dict () kvs') ∧
+      Tr.lookup k kvs' = some v ∧
+      ∀ k' w, k' ≠ k → Tr.lookup k' dkvs = some w → ∃ x : T, Tr.lookup k' kvs' = some x.toBase ∧ Eqv x w := by
+  have hk : sameKind o.root (Tr.dict () dkvs : J) = true := by rw [hroot]; rfl
+  have hwd' : (Tr.dict () dkvs : J).wf = true := by simpa [Tr.wf] using hwd
+  have h := call_root_refines s oi o (.dict () dkvs) (.dSetitem k v) ho hst hv hwd' hwt hk rfl rfl
+    (by rw [hroot]; exact hpre)
+  obtain ⟨heqv, _, _, hstore, _⟩ := h
+  have hst' := hstore rfl
+  -- the merged tree is a dict with the identity of the old root
+  cases ht : (updNode (s.fam o) o.root (Tr.dict () dkvs : J) s.next).val with
+  | leaf sc => rw [ht] at heqv; simp [Eqv] at heqv
+  | list j xs => rw [ht] at heqv; simp [Eqv] at heqv
+  | dict j tkvs =>
+    rw [ht] at heqv hst'
+    simp only [Eqv] at heqv
+    refine ⟨Tr.mapKV (fun _ => ()) (Tr.setKey k (fromBase v (loadRoot s oi).1.next).1 tkvs), ?_, ?_, ?_⟩
+    · rw [hst']
+      simp [runBody, dmutRes, dictMut, Tr.toBase, Tr.map]
+    · rw [lookup_mapKV, lookup_setKey_same]
+      simp only [Option.map_some]
+      have := toBase_fromBase v (loadRoot s oi).1.next
+      simp only [Tr.toBase] at this
+      rw [this]
+      exact congrArg some (toBase_J v)
+    · intro k' w hne hw
+      have hhas : Tr.hasKey k' tkvs = true := heqv.2 k' (by simp [Tr.hasKey, hw])
+      obtain ⟨x, hx⟩ := (hasKey_iff_lookup k' tkvs).mp hhas
+      have hmem : (k', x) ∈ tkvs := by
+        clear heqv hst' ht hhas
+        induction tkvs with
+        | nil => simp [Tr.lookup] at hx
+        | cons q qs ih =>
+          obtain ⟨k2, v2⟩ := q
+          simp only [Tr.lookup] at hx
+          by_cases hk2 : k2 = k'
+          · simp only [hk2, if_true, Option.some.injEq] at hx; subst hx; subst hk2; exact List.mem_cons_self ..
+          · simp only [hk2, if_false] at hx; exact List.mem_cons_of_mem _ (ih hx)
+      obtain ⟨w', hw', hxw⟩ := (EqvKV_iff tkvs dkvs).mp heqv.1 (k', x) hmem
+      simp only at hw'
+      rw [hw] at hw'
+      simp only [Option.some.injEq] at hw'
+      subst hw'
+      refine ⟨x, ?_, hxw⟩
+      rw [lookup_mapKV, lookup_setKey_other k k' _ tkvs hne, hx]
+      rfl
+
+/-- non-vacuity, the scenario of the property on the machine: two objects on one resource; A adds
+key "a"; B — whose memory is stale (empty) — adds key "b": the backend has both. -/
+example :
+    let fam : Fam := ⟨[.requireStringKey, .jsonFormat], [.requireStringKey, .jsonFormat]⟩
+    let s0 := (openObj (openObj (State.empty [fam]) 0 true 0 none).1 0 true 0 none).1
+    let s1 := (call s0 (.root 0) (.dSetitem (.s "a") (.leaf (.int 1)))).1
+    let s2 := (call s1 (.root 1) (.dSetitem (.s "b") (.leaf (.int 2)))).1
+    (match s2.store 0 with
+     | some d => Tr.same d (.dict () [(.s "a", .leaf (.int 1)), (.s "b", .leaf (.int 2))] : J)
+     | none => false) = true := by
+  decide
 
 end SC.Props
